@@ -1,5 +1,6 @@
 import NfpmModel.Wire
 import NfpmModel.Ar
+import NfpmModel.Tar
 import NfpmModel.Spec.PlanSpec
 import NfpmModel.Spec.PayloadSpec
 import NfpmModel.Spec.ScriptSpec
@@ -289,6 +290,19 @@ def handle (op : String) (args : List String) : Except String String :=
     match Ar.read b with
     | none => pure "malformed"
     | some ms => pure (s!"{ms.length}" ++ String.join (ms.map (fun m => s!" {hex m.name} {m.body.length}")))
+  -- byte-level tar stream of deb / ipk (GNU format, no extension headers): model writer and reader
+  | "tarfile" => do
+    let ms ← run1 (pList (do
+      let name ← pBytes; let mode ← pNat; let uid ← pNat; let gid ← pNat; let size ← pNat; let mtime ← pNat
+      let tf ← pNat; let linkname ← pBytes; let uname ← pBytes; let gname ← pBytes; let body ← pBytes
+      pure ({ hdr := { name, mode, uid, gid, size, mtime, typeflag := tf.toUInt8, linkname, uname, gname }, body } : Tar.Member))) args
+    pure (hex (Tar.archive ms))
+  | "tarread" => do
+    let b ← run1 pBytes args
+    match Tar.read b with
+    | none => pure "malformed"
+    | some ms => pure (s!"{ms.length}" ++ String.join (ms.map (fun m =>
+        s!" {hex m.hdr.name} {m.hdr.mode} {m.hdr.uid} {m.hdr.gid} {m.hdr.size} {m.hdr.mtime} {m.hdr.typeflag.toNat} {hex m.hdr.linkname} {hex m.hdr.uname} {hex m.hdr.gname} {m.body.length}")))
   | _ => .error s!"unknown op {op}"
 
 partial def loop (hin : IO.FS.Stream) (hout : IO.FS.Stream) : IO Unit := do
